@@ -353,6 +353,26 @@ class DSession:
                   "is_dag": bool(r[1]) if out == "ok" else False,
                   "longest": int(r[2]) if out == "ok" else -1})
 
+    def create_or_get_cond(self, cls_name, need):
+        """dispatcher.create_or_get_observer(cls, condition="has these feature types", feature_types=need)"""
+        from job_shop_lib.dispatching import feature_observers as FO
+        cls = getattr(FO, cls_name)
+        fts = [FO.FeatureType(x) for x in need]
+        d = self.dispatcher
+
+        def go():
+            def cond(o):
+                return isinstance(o, cls) and all(ft in o.features for ft in fts)
+            return d.create_or_get_observer(cls, condition=cond, feature_types=fts)
+
+        out, obj = _outcome(go)
+        idx = 0
+        if out == "ok":
+            for i, x in enumerate(d.subscribers):
+                if x is obj:
+                    idx = i + 1
+        self._ev({"a": "CreateOrGetCond", "cls": cls_name, "need": list(need), "out": out, "res": idx})
+
     def fresh_run(self, creations, actions):
         """Same observers created in the same order on a FRESH dispatcher, the
         same calls made: its projection is logged next to the current one."""
@@ -446,7 +466,10 @@ class DSession:
     # -- trace -------------------------------------------------------------
     def trace(self):
         t = {"tid": self.tid, "inst": self.inst, "filt": self.filt,
-             "kinds": self.kinds, "events": self.events, "featcheck": False, "fresh_obs": []}
+             "kinds": self.kinds, "events": self.events, "featcheck": False, "freshcheck": False,
+             "fresh_obs": []}
+        if self.header.get("fresh_obs"):
+            t["freshcheck"] = True
         t.update(self.header)
         return t
 
@@ -514,6 +537,8 @@ def rerun_trace(tid, trace) -> dict:
             s.graph_event(ev["builder"])
         elif a == "Solved":
             s.solved_event(ev.get("source", "dispatcher"))
+        elif a == "CreateOrGetCond":
+            s.create_or_get_cond(ev["cls"], ev["need"])
         elif a == "FreshRun":
             creations = [(e["t"], (e["builder"], e["rm_machines"], e["rm_jobs"])
                           if e["t"] == "ResidualGraphUpdater" else e["fts"])
